@@ -589,3 +589,56 @@ Proof.
   destruct (pol_update_if_has p m key cost) as [[has p1] m1] eqn:Eu. destruct has; [discriminate|].
   apply add_loop_terminates; [simpl; lia|]. unfold add_fuel, stale. simpl. lia.
 Qed.
+
+(* ---------- the number of victims of one Add is paid for by the keys it removes ---------- *)
+Lemma map_size_insert_le (m : gmap N Z) k v : size (<[k := v]> m) <= S (size m).
+Proof. destruct (m !! k) eqn:E; [rewrite map_size_insert_Some by eauto|rewrite map_size_insert_None by auto]; lia. Qed.
+
+Lemma add_loop_bound fuel : forall orders est key cost inc p m sample victims rounds vs added p' m' r rej,
+  (length sample <= lfu_sample)%nat ->
+  add_loop fuel orders est key cost inc p m sample victims rounds = AddOk vs added p' m' r rej ->
+  length vs + 6 * size (p_costs p') <= length victims + 6 * size (p_costs p) + stale (p_costs p) sample + 6.
+Proof.
+  induction fuel as [|fuel IH]; intros orders est key cost inc p m sample victims rounds vs added p' m' r rej Hlen Hrun.
+  - simpl in Hrun. destruct (0 <=? room_left p cost)%Z; [|discriminate]. inversion Hrun; subst. simpl.
+    pose proof (map_size_insert_le (p_costs p) key cost). lia.
+  - simpl in Hrun. destruct (0 <=? room_left p cost)%Z.
+    { inversion Hrun; subst. simpl. pose proof (map_size_insert_le (p_costs p) key cost). lia. }
+    set (order := match orders with o :: _ => o | [] => (map_to_list (p_costs p)).*1 end) in *.
+    set (sample1 := fill_sample (p_costs p) order sample) in *.
+    assert (Hl1 : (length sample1 <= lfu_sample)%nat).
+    { subst sample1. etrans; [apply fill_sample_length|]. lia. }
+    assert (Hst1 : stale (p_costs p) sample1 = stale (p_costs p) sample) by apply stale_fill.
+    destruct (min_entry est sample1 0 None) as [[[[i mk] mc] mh]|] eqn:Emin.
+    2: { inversion Hrun; subst. lia. }
+    destruct (inc <? mh)%Z; [inversion Hrun; subst; lia|].
+    pose proof (min_entry_spec est sample1 0 None _ Emin) as (Hsel & _ & _). simpl in Hsel.
+    destruct Hsel as [Hsel|(_ & Hi & _)]; [discriminate|]. rewrite Nat.sub_0_r in Hi.
+    destruct (pol_del p m mk) as [p1 m1] eqn:Edel.
+    assert (Hp1 : p_costs p1 = delete mk (p_costs p)).
+    { pose proof (pol_del_costs p m mk) as H. now rewrite Edel in H. }
+    pose proof (stale_remove_swap (p_costs p) sample1 i (mk, mc) Hi) as Hrs. simpl in Hrs.
+    pose proof (remove_swap_length_lt sample1 i (mk, mc) Hi) as Hrl.
+    assert (Hpos : (0 < length sample1)%nat) by (apply lookup_lt_Some in Hi; lia).
+    apply IH in Hrun; [|unfold lfu_sample in *; lia].
+    rewrite app_length in Hrun. simpl in Hrun. rewrite Hp1 in Hrun.
+    destruct (p_costs p !! mk) as [c0|] eqn:Ek.
+    + rewrite map_size_delete, Ek in Hrun.
+      assert (Hs : (0 < size (p_costs p))%nat).
+      { destruct (size (p_costs p)) eqn:Es; [|lia]. apply map_size_empty_inv in Es. rewrite Es in Ek.
+        rewrite lookup_empty in Ek. discriminate. }
+      rewrite bool_decide_false in Hrs by discriminate.
+      pose proof (stale_delete_le (p_costs p) mk (remove_swap sample1 i)). unfold lfu_sample in *. lia.
+    + rewrite delete_notin in Hrun by exact Ek. rewrite bool_decide_true in Hrs by reflexivity. lia.
+Qed.
+
+Theorem pol_add_bound orders est p m key cost vs added p' m' r rej :
+  pol_add orders est p m key cost = AddOk vs added p' m' r rej ->
+  length vs + 6 * size (p_costs p') <= 6 * size (p_costs p) + 6.
+Proof.
+  unfold pol_add. destruct (p_max p <? cost)%Z; [intros [= <- <- <- <- <- <-]; simpl; lia|].
+  destruct (pol_update_if_has p m key cost) as [[has p1] m1] eqn:Eu. unfold pol_update_if_has in Eu.
+  destruct (p_costs p !! key) eqn:Ek; inversion Eu; subst; clear Eu.
+  - intros [= <- <- <- <- <- <-]. simpl. rewrite map_size_insert_Some by eauto. lia.
+  - intros Hrun. apply add_loop_bound in Hrun; [|simpl; lia]. unfold stale in Hrun. simpl in Hrun. lia.
+Qed.
